@@ -17,9 +17,9 @@ func init() {
 		[]string{"git for-each-ref lists every reference once", "field-based heap model"},
 		ruleC07RenderTotal, ruleC07Count, ruleC07Argv, ruleC07Ignored, ruleC07Symbols, ruleC07Subgroups, ruleC07EachGroup)
 	register("C08",
-		"Structural necessary conditions of C08 decided from /repo's SSA: (pairing) every witness-path update is control-dependent on the `true` result of the AdjustMax* call on the paired value field (pairing table = the documented JSON v1 keys), passes the function's own object id and the object kind of the metric, and forgets the previous path before requesting the new one; (siblings) in the report's item list every item cites the path field paired with its value field; (none) with NameStyleNone the resolver hands out no path, Footnote is always empty, hash style cites the object id and full style the path description. Not decided: that a printed description resolves with git rev-parse (depends on git's revision grammar and run-time strings).",
+		"Structural necessary conditions of C08 decided from /repo's SSA: (pairing) every witness-path update is control-dependent on the `true` result of the AdjustMax* call on the paired value field (pairing table = the documented JSON v1 keys), passes the function's own object id and the object kind of the metric, and forgets the previous path before requesting the new one; (siblings) in the report's item list every item cites the path field paired with its value field; (none) with NameStyleNone the resolver hands out no path, Footnote is always empty, hash style cites the object id and full style the path description; (refcount) a parent link of a sought path is only ever set to a path on which a reference was taken on that very path (requested, i.e. its seeker count incremented or initialised to 1), so a parent cannot be dropped from the table while a child still points at it. Not decided: that a printed description resolves with git rev-parse (depends on git's revision grammar and run-time strings).",
 		[]string{"the enumeration delivers each object's id together with its size (C01.effects provenance)"},
-		ruleC08Pairing, ruleC08Siblings, ruleC08None, ruleC08ParentKind, ruleC08RootPrefix)
+		ruleC08Pairing, ruleC08Siblings, ruleC08None, ruleC08ParentKind, ruleC08RootPrefix, ruleC08Refcount)
 }
 
 // ---------------- C07 ----------------
@@ -368,9 +368,9 @@ func ruleC07Symbols(c *Ctx) {
 	}
 	name := fnName(contents)
 	var groupItem *ssa.Call
-	for _, call := range callsTo(contents, newItem) {
-		if _, isConst := call.Call.Args[0].(*ssa.Const); !isConst {
-			groupItem = call
+	for _, row := range c.itemRows(contents, newItem) {
+		if _, isConst := row.Args[0].(*ssa.Const); !isConst {
+			groupItem = row.Call
 		}
 	}
 	if groupItem == nil {
@@ -682,23 +682,20 @@ func ruleC08Siblings(c *Ctx) {
 		return
 	}
 	n := 0
-	for _, call := range callsTo(contents, newItem) {
-		pv := call.Call.Args[pathIdx]
+	for _, call := range c.itemRows(contents, newItem) {
+		pv := call.Args[pathIdx]
 		if isNilConst(pv) {
 			continue
 		}
 		n++
 		ptag := historyFieldTag(c, pv)
-		var vtag string
-		if mi, ok := call.Call.Args[valIdx].(*ssa.MakeInterface); ok {
-			vtag = historyFieldTag(c, mi.X)
-		}
-		sym, _ := constStr(call.Call.Args[0])
+		vtag := historyFieldTag(c, itemValue(call.Args[valIdx]))
+		sym, _ := constStr(call.Args[0])
 		pr, ok := witnessPairs[vtag]
 		if ok && pr[0] == ptag {
-			c.hold("C08.siblings", sym, call.Pos(), fmt.Sprintf("item %s shows %s and cites %s", sym, vtag, ptag))
+			c.hold("C08.siblings", sym, call.Pos, fmt.Sprintf("item %s shows %s and cites %s", sym, vtag, ptag))
 		} else {
-			c.violate("C08.siblings", sym, call.Pos(), fnName(contents), fmt.Sprintf("item %s shows the value %s but cites the witness %s, which is recorded for another metric", sym, vtag, ptag))
+			c.violate("C08.siblings", sym, call.Pos, fnName(contents), fmt.Sprintf("item %s shows the value %s but cites the witness %s, which is recorded for another metric", sym, vtag, ptag))
 		}
 	}
 	if n < len(witnessPairs) {
@@ -951,4 +948,128 @@ func ruleC07EachGroup(c *Ctx) {
 	c.RuleAlias = map[string]string{"C15.each-group": "C07.hierarchy"}
 	defer func() { c.RuleAlias = nil }()
 	ruleC15EachGroup(c)
+}
+
+// ruleC08Refcount: a sought path's parent link holds a counted reference.
+// Path.parent may only be assigned the result of a function that, on every
+// path to its return, increments the seeker count of the path it returns or
+// creates it with count 1. Otherwise a later ForgetPath cascade removes the
+// parent while a child still needs it and the child is footnoted as `???name`.
+func ruleC08Refcount(c *Ctx) {
+	pt := c.namedType("/sizes", "Path")
+	if pt == nil {
+		c.violate("C08.refcount", "type", token.NoPos, "", "type sizes.Path not found")
+		return
+	}
+	st, _ := pt.Underlying().(*types.Struct)
+	var parentF, countF *types.Var
+	for i := 0; st != nil && i < st.NumFields(); i++ {
+		f := st.Field(i)
+		if p, ok := f.Type().(*types.Pointer); ok && types.Identical(p.Elem(), pt) {
+			parentF = f
+		}
+		if b, ok := f.Type().Underlying().(*types.Basic); ok && b.Info()&types.IsInteger != 0 {
+			countF = f
+		}
+	}
+	if parentF == nil || countF == nil {
+		c.notDecided("C08.refcount", "fields", pt.Obj().Pos(), "sizes.Path no longer has a self-typed parent link and an integer reference count")
+		return
+	}
+	// acquisitions: count := count + 1, or count initialised to the constant 1
+	isAcquire := func(in ssa.Instruction) int {
+		s, ok := in.(*ssa.Store)
+		if !ok {
+			return 0
+		}
+		fa, ok := s.Addr.(*ssa.FieldAddr)
+		if !ok || fieldOfAddr(fa).Var != countF {
+			return 0
+		}
+		if k, ok := constInt(s.Val); ok && k == 1 {
+			return 1
+		}
+		if bo, ok := s.Val.(*ssa.BinOp); ok && bo.Op == token.ADD {
+			if k, ok := constInt(bo.Y); ok && k == 1 {
+				return 1
+			}
+		}
+		return 0
+	}
+	ec := c.newEventCounter(isAcquire, true)
+	acquiring := func(f *ssa.Function) bool {
+		if f == nil || len(f.Blocks) == 0 || f.Signature.Results().Len() != 1 {
+			return false
+		}
+		r := ec.function(f)
+		return r.Min == 1 && r.Max == 1
+	}
+	n := 0
+	for _, f := range c.ModFns {
+		allInstrs(f, func(in ssa.Instruction) {
+			s, ok := in.(*ssa.Store)
+			if !ok {
+				return
+			}
+			fa, ok := s.Addr.(*ssa.FieldAddr)
+			if !ok || fieldOfAddr(fa).Var != parentF {
+				return
+			}
+			n++
+			key := fnName(f)
+			var bad string
+			// an explicit `p.count++` on the looked-up path before it is linked
+			countedInline := func(v ssa.Value, at *ssa.BasicBlock) bool {
+				found := false
+				allInstrs(f, func(in2 ssa.Instruction) {
+					if isAcquire(in2) == 0 {
+						return
+					}
+					fa2 := in2.(*ssa.Store).Addr.(*ssa.FieldAddr)
+					if c.resolve(fa2.X) == v && (in2.Block() == at || in2.Block().Dominates(at)) {
+						found = true
+					}
+				})
+				return found
+			}
+			var check func(v ssa.Value, depth int, at *ssa.BasicBlock)
+			seen := map[ssa.Value]bool{}
+			check = func(v ssa.Value, depth int, at *ssa.BasicBlock) {
+				v = c.resolve(v)
+				if seen[v] || depth > 8 {
+					return
+				}
+				seen[v] = true
+				switch x := v.(type) {
+				case *ssa.Const:
+					if !isNilConst(x) {
+						bad = "a constant"
+					}
+				case *ssa.Phi:
+					for i, e := range x.Edges {
+						check(e, depth+1, x.Block().Preds[i])
+					}
+				case *ssa.Call:
+					if cal := x.Call.StaticCallee(); cal == nil || !c.inRuleScope(cal) || !acquiring(cal) {
+						if !countedInline(v, at) {
+							bad = "the result of " + calleeQ(&x.Call) + ", which does not take exactly one reference on every path"
+						}
+					}
+				default:
+					if !countedInline(v, at) {
+						bad = fmt.Sprintf("a path obtained without taking a reference (%s)", strings.TrimPrefix(fmt.Sprintf("%T", v), "*ssa."))
+					}
+				}
+			}
+			check(s.Val, 0, s.Block())
+			if bad == "" {
+				c.hold("C08.refcount", key, s.Pos(), "the parent link is the result of a request that counted this child as a seeker")
+			} else {
+				c.violate("C08.refcount", key, s.Pos(), key, "the parent link of a sought path is set to "+bad+": the parent's seeker count does not include this child, so forgetting another seeker drops the parent and the child is footnoted with an unresolvable `???name`")
+			}
+		})
+	}
+	if n < 2 {
+		c.violate("C08.refcount", "floor", token.NoPos, "", fmt.Sprintf("only %d assignments of a parent link found (tree entries and commit trees expected)", n))
+	}
 }
